@@ -44,7 +44,8 @@ func deepReorg(rep *core.Report, n int) (*core.Rig, *core.Tree, []*core.MHeader,
 	return rig, t, a, ok
 }
 
-const deepN = 623
+// depths: an exact multiple of a round batching constant, and one that is not
+var deepNs = []int{500, 623}
 
 // Finish (C01): after the deep reorganisation every label and the tip are the model's.
 func (o *c01) Finish() {
@@ -52,6 +53,12 @@ func (o *c01) Finish() {
 	if !env.Mine(0) || o.rep.Expired() {
 		return
 	}
+	for _, deepN := range deepNs {
+		o.deepCase(deepN)
+	}
+}
+
+func (o *c01) deepCase(deepN int) {
 	rig, t, _, ok := deepReorg(o.rep, deepN)
 	defer rig.Close()
 	if !ok {
@@ -78,6 +85,12 @@ func (o *c08) Finish() {
 	if !env.Mine(1) || o.rep.Expired() {
 		return
 	}
+	for _, deepN := range deepNs {
+		o.deepCase(deepN)
+	}
+}
+
+func (o *c08) deepCase(deepN int) {
 	rig, t, a, ok := deepReorg(o.rep, deepN)
 	defer rig.Close()
 	if !ok {
@@ -127,7 +140,7 @@ func (o *c08) Finish() {
 			}
 		}
 	}
-	for _, i := range []int{0, 99, 499, 500, len(a) - 1} {
+	for _, i := range []int{0, 99, 498, 499, len(a) - 1} {
 		r := api.Do("GET", "/api/v1/chain/merkleroot?batchSize=5&lastEvaluatedKey="+a[i].Raw.Merkle.Hex(), nil, hdr)
 		rep.Evaluations++
 		var ej errJSON
